@@ -93,7 +93,7 @@ let chi_query fixed (a : int -> string) =
        undefined `&m_data[0]`; x is therefore assembled part by part here. *)
     let sx = { g_status = Computed; g_parts = computed_parts 0 ps; g_vanishing = (ps = []) } in
     let tag = if fixed then "FIXEDCHI" else "CHI" in
-    (match f_gf_compute fexp fixed 0 (tl ()) clear fr s0 with
+    (match (if fixed then f_gf_compute_gen fexp true true 0 (tl ()) clear fr s0 else f_gf_compute fexp 0 (tl ()) clear fr s0) with
      | Done (table, sy) ->
        Printf.printf "%s %d %d %d %d %d %d %d %d" tag i j k l (if clear then 1 else 0) (if sx.g_vanishing then 1 else 0) (List.length ps) (List.length table);
        List.iteri (fun f ((z1, z2), z3) ->
@@ -112,6 +112,8 @@ let chi_query fixed (a : int -> string) =
 let handle (t : string array) =
   let a k = t.(k) in
   match a 0 with
+  | "shape" -> Printf.printf "SHAPE add_term_retries=%b sizes_table_first=%b guards_empty_reduce=%b\n"
+                 add_term_retries compute_sizes_table_before_vanishing_test compute_guards_empty_reduce
   | "NBLOCKS" -> nblocks := ios (a 1)
   | "EIG" -> Hashtbl.replace eigs (ios (a 1)) (Array.init (Array.length t - 2) (fun k -> fos (a (2 + k))))
   | "W" -> Hashtbl.replace ws (ios (a 1)) (Array.init (Array.length t - 2) (fun k -> fos (a (2 + k))))
@@ -135,6 +137,11 @@ let handle (t : string array) =
        Printf.printf "PARTS %d %d %d %d %d %d\n" i j k l (if ps = [] then 1 else 0) (List.length ps);
        let r0 = computed_parts 0 ps in
        List.iteri (fun p (pin, st) -> print_part p pin st) r0;
+       (* does the pole-separation hypothesis of chi_termlist_no_loss hold for the terms of each part? *)
+       List.iteri (fun p pin ->
+           match f_part_emissions fexp 0 (tl ()) pin with
+           | Done es -> Printf.printf "SEP %d %d %d\n" p (if f_emissions_separated_b fexp (tl ()) es then 1 else 0) (List.length es)
+           | o -> Printf.printf "MODEL-OUTCOME emissions %s\n" (oc_name o)) ps;
        (* the value returned by index() on an exhausted iterator must not matter *)
        let r1 = computed_parts 1000003 ps in
        if List.map snd r0 <> List.map snd r1 then print_endline "GDEP";
